@@ -219,6 +219,9 @@ func EvalString(this any, code string, emptyEnv bool) (object.Object, error) {
 		blank.MaxDepth = maxDepth
 		if ok {
 			blank.Context = evalState.Context // same deadline/cancellation as the caller.
+			// and it continues on the caller's (possibly already deep) stack: same depth and nesting budget.
+			blank.depth = evalState.depth
+			blank.nesting = evalState.nesting
 		}
 		evalState = blank
 	} else {
